@@ -446,10 +446,16 @@ class HTTPChannel(wasyncore.dispatcher):
                 # previous response): do not execute anything more on it
                 task.close_on_finish = True
         except ClientDisconnected:
-            self.logger.info("Client disconnected while serving %s" % task.request.path)
+            # a request that failed to parse has no path
+            self.logger.info(
+                "Client disconnected while serving %s"
+                % getattr(task.request, "path", None)
+            )
             task.close_on_finish = True
         except BaseException:
-            self.logger.exception("Exception while serving %s" % task.request.path)
+            self.logger.exception(
+                "Exception while serving %s" % getattr(task.request, "path", None)
+            )
 
             if not task.wrote_header:
                 if self.adj.expose_tracebacks:
